@@ -62,5 +62,11 @@ SPEC = {
         # KF-C08-2 (stale "object was passed" mark: histories in which a successful call leaves such a mark and a later call to that function names no object are excluded)
         'defines': [],   # KF-C08-2 is fixed in /repo; the open KF-C08-1 is added by run.py from known_findings.json
         'obligations': obligations() + [{'fn': 'finding_order_hidden_by_unfulfilled', 'expect': 'fail', 'unwind': 8, 'timeout': 600, 'bounds': 'strict order; expectNCalls(2,a); expectOneCall(b); actual b, a (open known finding KF-C08-1)'}],
+    }, {
+        # same histories with object o1 = the NULL pointer: an expectation .onObject(NULL) is an expectation on a specific object
+        'name': 'mock_null', 'wrapper': 'w08.cpp', 'harness': 'h08.c',
+        'config': {'ext': True, 'heapcheck': False, 'stubs': STUBS, 'defines': ['-DO1_IS_NULL']},
+        'defines': [],
+        'obligations': [dict(o, id=o['fn'] + '[o1=NULL]', bounds=o['bounds'] + '; object o1 is the NULL pointer') for o in obligations() if 'e1a1' in o['fn'] and o['tier'] == 'quick'][:2],
     }],
 }
